@@ -174,6 +174,7 @@ func schedMain(args []string) {
 		os.Stdout.Write(b)
 		return
 	}
+	c17Profile(sc)
 	e := c17RunOnce(sc, req.Prefix)
 	b, _ := json.Marshal(e)
 	os.Stdout.Write(b)
@@ -268,11 +269,29 @@ func c17RunCase(c *Ctx, raw []byte) string {
 			return "process-death"
 		}
 	} else {
-		// lazily built state first, as in the enumeration
-		c17Warm()
+		// lazily built state and scheduling points first, as in the enumeration
+		c17Profile(sc)
 		e = c17RunOnce(sc, cs.Schedule)
 	}
 	return c17Judge(c, cs.Scenario, e, cs.Bound, true)
+}
+
+// c17Profile runs the profiling execution that decides which map-access sites are scheduling
+// points (sites at which a map is touched by more than one thread), exactly the same way for the
+// enumeration, the replays and the fresh-process executions.
+func c17Profile(sc c17Scenario) {
+	verifrt.SharedSites = map[string]bool{}
+	if sc.Fresh {
+		verifrt.YieldAtAccess = 1
+		return
+	}
+	c17Warm()
+	verifrt.YieldAtAccess = 0
+	c17RunOnce(sc, nil)
+	for st := range verifrt.SitesSeen {
+		verifrt.SharedSites[st] = true
+	}
+	verifrt.YieldAtAccess = 2
 }
 
 var c17Warmed bool
@@ -313,19 +332,7 @@ func c17Run(c *Ctx) {
 			b = 1
 			ex.Bound = 1
 		}
-		// profiling execution(s): which access sites touch maps that more than one thread reaches?
-		verifrt.SharedSites = map[string]bool{}
-		if !sc.Fresh {
-			c17Warm()
-			verifrt.YieldAtAccess = 0
-			c17RunOnce(sc, nil)
-			for st := range verifrt.SitesSeen {
-				verifrt.SharedSites[st] = true
-			}
-			verifrt.YieldAtAccess = 2
-		} else {
-			verifrt.YieldAtAccess = 1
-		}
+		c17Profile(sc)
 		c.Count("shared_access_sites_"+sc.Name, int64(len(verifrt.SharedSites)))
 		var cur c17Exec
 		distinct := map[string]bool{}
